@@ -83,6 +83,14 @@ enum Step {
     Intern(String),
     StrStore(u64, u64, String),
     Prefixes(String),
+    /// host API: compile a source once and keep the rooted function
+    Keep(String),
+    /// host API: execute the i-th kept function (again)
+    Exec(usize),
+    /// host API: define a native function in any module (created on demand)
+    Native(String, String),
+    /// host API: read a module-level variable and display it
+    GetG(String, String),
 }
 
 #[derive(Debug, Default)]
@@ -177,6 +185,13 @@ fn read_cases(data: Vec<u8>) -> Vec<Case> {
                         let n: usize = a.parse().expect("harness: INTERN length");
                         case.steps.push(Step::Intern(reader.blob(n)));
                     }
+                    "KEEP" => {
+                        let n: usize = a.parse().expect("harness: KEEP length");
+                        case.steps.push(Step::Keep(reader.blob(n)));
+                    }
+                    "EXEC" => case.steps.push(Step::Exec(a.parse().expect("harness: EXEC index"))),
+                    "NATIVE" => case.steps.push(Step::Native(a.to_owned(), b.to_owned())),
+                    "GETG" => case.steps.push(Step::GetG(a.to_owned(), b.to_owned())),
                     "RESET" => case.steps.push(Step::Reset),
                     "STATS" => case.steps.push(Step::Stats),
                     "STRSTORE" => {
@@ -494,6 +509,90 @@ fn run_step(vm: &mut Vm, step: &Step, case: &Case, out: &mut String) -> bool {
             out.push('}');
             outcome != "panic"
         }
+        Step::Keep(src) => {
+            let result = panic::catch_unwind(AssertUnwindSafe(|| compiler::compile(vm, src.clone(), None)));
+            out.push_str("{\"k\":\"keep\"");
+            match result {
+                Ok(Ok(function)) => {
+                    KEPT_FUNCTIONS.with(|k| k.borrow_mut().push(function));
+                    out.push_str(",\"res\":\"ok\"}");
+                    true
+                }
+                Ok(Err(error)) => {
+                    out.push_str(",\"res\":\"err\"");
+                    error_json(out, &error);
+                    out.push('}');
+                    true
+                }
+                Err(_) => {
+                    out.push_str(",\"res\":\"panic\"");
+                    panic_json(out);
+                    out.push('}');
+                    false
+                }
+            }
+        }
+        Step::Exec(index) => {
+            let function = KEPT_FUNCTIONS.with(|k| k.borrow().get(*index).cloned());
+            out.push_str("{\"k\":\"snip\",\"out\":");
+            let function = match function {
+                Some(f) => f,
+                None => {
+                    out.push_str("[],\"res\":\"missing\"}");
+                    return true;
+                }
+            };
+            let result = panic::catch_unwind(AssertUnwindSafe(|| vm.execute(function, &[])));
+            json_str_list(out, &take_output());
+            match result {
+                Ok(Ok(_)) => out.push_str(",\"res\":\"ok\""),
+                Ok(Err(error)) => {
+                    out.push_str(",\"res\":\"err\"");
+                    error_json(out, &error);
+                }
+                Err(_) => {
+                    out.push_str(",\"res\":\"panic\"");
+                    panic_json(out);
+                    out.push('}');
+                    return false;
+                }
+            }
+            state_json(vm, out);
+            out.push('}');
+            true
+        }
+        Step::Native(module, name) => {
+            let result = panic::catch_unwind(AssertUnwindSafe(|| vm.define_native(module, name, host_echo)));
+            out.push_str("{\"k\":\"native\"");
+            if result.is_err() {
+                out.push_str(",\"res\":\"panic\"");
+                panic_json(out);
+                out.push('}');
+                return false;
+            }
+            out.push_str(",\"res\":\"ok\"}");
+            true
+        }
+        Step::GetG(module, name) => {
+            let result = panic::catch_unwind(AssertUnwindSafe(|| {
+                vm.global(module, name).map(|v| format!("{}", v))
+            }));
+            out.push_str("{\"k\":\"getg\"");
+            match result {
+                Ok(text) => {
+                    out.push_str(",\"res\":\"ok\",\"text\":");
+                    json_str(out, &text.unwrap_or_else(|| "<none>".to_owned()));
+                    out.push('}');
+                    true
+                }
+                Err(_) => {
+                    out.push_str(",\"res\":\"panic\"");
+                    panic_json(out);
+                    out.push('}');
+                    false
+                }
+            }
+        }
         Step::Reset => {
             let result = panic::catch_unwind(AssertUnwindSafe(|| vm.reset()));
             out.push_str("{\"k\":\"reset\"");
@@ -761,6 +860,7 @@ fn finish_hooks(case: &Case, out: &mut String) {
 
 thread_local! {
     static KEPT_VM: RefCell<Option<Vm>> = RefCell::new(None);
+    static KEPT_FUNCTIONS: RefCell<Vec<yarel::memory::Root<yarel::object::ObjFunction>>> = RefCell::new(Vec::new());
 }
 
 fn run_case(case: &Case) -> String {
@@ -775,6 +875,7 @@ fn run_case(case: &Case) -> String {
         }
     });
     LOADS.with(|l| l.borrow_mut().clear());
+    KEPT_FUNCTIONS.with(|k| k.borrow_mut().clear());
     let _ = take_output();
     #[cfg(feature = "hooks")]
     configure_hooks(case);
@@ -812,6 +913,7 @@ fn run_case(case: &Case) -> String {
     out.push_str(",\"loads\":");
     let loads = LOADS.with(|l| std::mem::take(&mut *l.borrow_mut()));
     json_str_list(&mut out, &loads);
+    KEPT_FUNCTIONS.with(|k| k.borrow_mut().clear());
     if let Some(vm) = vm_opt.take() {
         if keep && !panicked {
             KEPT_VM.with(|k| *k.borrow_mut() = Some(vm));
